@@ -192,7 +192,9 @@ func (p *Program) houdini(vc *VC, cfg *CheckConfig, rep *FuncReport) error {
 		fast := *cfg
 		fast.Timeout = 3
 		fast.Tier = "quick"
+		vc.lightAssemble = true
 		results := solveAll(vc, axioms, todo, &fast)
+		vc.lightAssemble = false
 		bad := map[*Clause]bool{}
 		for _, r := range results {
 			if !r.OK {
